@@ -359,6 +359,45 @@ struct MRes {
     accepted: bool,
 }
 
+/// Cause class of a non-fixed-point witness, derived from what the first re-serialisation did to
+/// the accepted input (never from the mutation operator or offsets): which kind of superbox the
+/// writer dropped/added relative to what the parser had accepted.
+fn cause_class(accepted: &[u8], b1: &[u8]) -> String {
+    let (Some(a), Some(b)) = (jumbf::parse_store(accepted), jumbf::parse_store(b1)) else {
+        return "unparseable-by-walker".into();
+    };
+    let (mut va, mut vb) = (Vec::new(), Vec::new());
+    a.walk(&mut va);
+    b.walk(&mut vb);
+    let key = |x: &&jumbf::JBox| (x.path.clone(), x.uuid);
+    let pa: Vec<_> = va.iter().filter(|x| &x.typ == b"jumb").map(key).collect();
+    let pb: Vec<_> = vb.iter().filter(|x| &x.typ == b"jumb").map(key).collect();
+    let kind_of = |u: &Option<[u8; 16]>| -> &'static str {
+        match u.map(|u| [u[0], u[1], u[2], u[3]]) {
+            Some([b'c', b'2', b'c', b'l']) => "claim",
+            Some([b'c', b'2', b'c', b's']) => "signature",
+            Some([b'c', b'2', b'a', b's']) => "assertion-store",
+            Some([b'c', b'2', b'v', b'c']) => "credential-store",
+            Some([b'c', b'2', b'd', b'b']) => "databox-store",
+            Some([b'c', b'2', b'm', b'a']) | Some([b'c', b'2', b'u', b'm']) | Some([b'c', b'2', b'm', b'd']) => "manifest",
+            _ => "other",
+        }
+    };
+    for x in &pa {
+        if !pb.contains(x) {
+            let depth = x.0.matches('/').count();
+            return format!("writer-dropped-{}-box@d{}", kind_of(&x.1), depth.min(4));
+        }
+    }
+    for x in &pb {
+        if !pa.contains(x) {
+            let depth = x.0.matches('/').count();
+            return format!("writer-added-{}-box@d{}", kind_of(&x.1), depth.min(4));
+        }
+    }
+    "same-box-tree".into()
+}
+
 fn judge_mutant(m: &Mutant, base_kind: &str) -> MRes {
     let shape = base_kind.split(':').next().unwrap_or("").to_string();
     match reser(&m.bytes) {
@@ -368,7 +407,7 @@ fn judge_mutant(m: &Mutant, base_kind: &str) -> MRes {
             Err(p) => MRes { class: None, violation: Some((format!("panic-second-pass|{}", m.kind), format!("panic on re-serialised store: {p}"))), accepted: true },
             Ok(Err(e)) => MRes {
                 class: Some(format!("{}|{}|reparse-error", shape, m.kind)),
-                violation: Some((format!("not-fixed-point|{}|reparse-error:{}", m.kind, e), format!("parser accepted the mutant, but its own re-serialisation is rejected ({e})"))),
+                violation: Some((format!("not-fixed-point|{}|reparse-error:{}", cause_class(&m.bytes, &b1), e), format!("parser accepted the input ({}), but its own re-serialisation is rejected ({e})", m.kind))),
                 accepted: true,
             },
             Ok(Ok(b2)) => {
@@ -379,7 +418,7 @@ fn judge_mutant(m: &Mutant, base_kind: &str) -> MRes {
                     let p = sg::first_diff_path(&b1, &b2);
                     MRes {
                         class: Some(format!("{}|{}|not-fixed-point", shape, m.kind)),
-                        violation: Some((format!("not-fixed-point|{}|{}", m.kind, p), format!("reserialize(B1) != B1 (len {} vs {}), first differing box {}", b1.len(), b2.len(), p))),
+                        violation: Some((format!("not-fixed-point|{}|{}", cause_class(&m.bytes, &b1), p), format!("reserialize(B1) != B1 after {} (len {} vs {}), first differing box {}", m.kind, b1.len(), b2.len(), p))),
                         accepted: true,
                     }
                 }
@@ -493,6 +532,30 @@ fn main() {
                 } else {
                     run.count("fixture_e1_diff", 1);
                     run.sample("unjudged:fixture-e1-diff", 2, json!({"kind": b.kind, "first_diff": sg::first_diff_path(&b.store, b1)}));
+                }
+            }
+        }
+    }
+
+    // ---- directed E2 cases (run on every invocation): a manifest child box whose description-box
+    // type UUID is the claim / signature / assertion-store one but whose label is not the expected one
+    if let Some(bi) = accepted_bases.iter().cloned().find(|i| bases[*i].sdk_fresh && bases[*i].kind.starts_with("L0")) {
+        let data = &bases[bi].store;
+        if let Some(root) = jumbf::parse_store(data) {
+            for suffix in ["/c2pa.signature", "/c2pa.assertions", "/c2pa.claim.v2", "/c2pa.claim", "/c2pa.databoxes"] {
+                let Some(sb) = root.find(suffix) else { continue };
+                let Some(j) = sb.children.iter().find(|c| &c.typ == b"jumd") else { continue };
+                let Some(nb) = sg::jumd_variant(data, j, 4, &[0]) else { continue };
+                let bytes = sg::apply_edit(data, &root, j.start, &Edit::Replace(nb));
+                let m = Mutant { base: bi, kind: format!("directed:relabel{}", suffix), bytes };
+                let res = judge_mutant(&m, &bases[bi].kind);
+                run.eval();
+                if let Some(c) = &res.class {
+                    run.nontrivial(c.clone());
+                }
+                run.sample("directed", 5, json!({"base": bases[bi].kind, "mutation": m.kind, "accepted": res.accepted, "class": res.class}));
+                if let Some((sig, what)) = &res.violation {
+                    run.violation(sig, what, json!({"mutation": m.kind, "base": bases[bi].kind, "store_hex": hex::encode(&m.bytes)}));
                 }
             }
         }
